@@ -64,7 +64,46 @@ def rule_r3(repo):
     return res
 
 
+# confirmed exceptions for R4: (function, construct text) -> reason
+R4_EXEMPT = {
+    ('analyze_args', 'integer.int_eval(coeff.arg1) / integer.int_eval(coeff.arg)'):
+        'the Farkas coefficients supplied with an la_generic step are only multipliers: any values are sound as long as the '
+        'combination is checked exactly afterwards, so a rounding error here can only make a valid step fail',
+    ('analyze_args', 'lcm * d / math.gcd(lcm, d)'):
+        'same: least common denominator of the supplied coefficients',
+}
+
+
+def rule_r4(repo):
+    from .c05 import inexact_sources
+    res = RuleResult('C18.R4', 'the arithmetic evaluators of the reconstruction compute with integers and fractions only', floor=2)
+    n_funcs = 0
+    for f in mr.verit_eval_side_functions(repo):
+        if f.module.rel != 'smt/veriT/la_generic.py':
+            continue
+        n_funcs += 1
+        for n in ast.walk(f.node):
+            pass
+        found = inexact_sources(repo, f)
+        # locate the construct text for the exception table
+        for ln, what in found:
+            text = None
+            for x in walk_no_nested(f.node, include_root=False):
+                if getattr(x, 'lineno', None) == ln and isinstance(x, ast.BinOp) and isinstance(x.op, (ast.Div, ast.Pow)):
+                    text = src(x, 200)
+                    break
+            ex = R4_EXEMPT.get((f.qualname, text))
+            res.add('smt/veriT/la_generic.py :: %s :: inexact(%s)' % (f.qualname, text or what), ex is not None,
+                    'confirmed exception: ' + ex if ex else
+                    '%s: floating point in the rounding / combination of linear inequalities (e.g. int(c / k) rounds toward zero where '
+                    'c // k rounds down) lets an unsound step be accepted' % what, 'smt/veriT/la_generic.py:%d' % ln,
+                    nontrivial=ex is None)
+    need(n_funcs >= 10, 'la_generic.py: evaluation-side functions not found')
+    res.info['functions_scanned'] = n_funcs
+    return res
+
+
 def rules(repo):
     r1 = mr.zip_rule(repo, 'C18.R1', mr.verit_eval_side_functions(repo), floor=9)
     r2 = mr.hyps_rule(repo, 'C18.R2', mr.verit_macros, floor=80)
-    return [r1, r2, rule_r3(repo)]
+    return [r1, r2, rule_r3(repo), rule_r4(repo)]
